@@ -33,7 +33,7 @@ type c08Case struct {
 	Runs      int         `json:"runs"`
 	StaleHalt bool        `json:"stale_halt"`
 	Script    []c08Script `json:"script"`
-	Arg       int         `json:"arg"` // IM2 vector
+	Arg       int         `json:"arg"`              // IM2 vector
 	NilIO     bool        `json:"nil_io,omitempty"` // no I/O device: requests can still be raised by memory callbacks
 	// BPChange: before Run call i+1 (i >= 1) the breakpoint set is replaced (or, if InPlace, mutated in
 	// the same map) by BPSets[i-1]; same size as the old set in half of the cases
